@@ -275,3 +275,29 @@ claim("C09",
       "order of the returned list) is not under contract; result lists that mix several collect actions in one tick "
       "are outside the two shapes.",
       category="other")
+
+claim("C36",
+      "Only the release decision of the in-process stack is decided: the body of `async with self._reload_lock(run_id)` "
+      "in IdleReleaseDecorator._release_idle_handler (extracted mechanically from the real source) is proved to remove "
+      "a run from memory if and only if the store holds exactly one handler row for it whose idle_since is at least "
+      "idle_timeout in the past at that moment and the run is active - so a release task armed by an earlier idle "
+      "period re-checks - and to touch no other run.",
+      "NOT covered: marking the handler idle (write_to_event_stream: effects are calls on the store, which the engine "
+      "does not log), the reload on the next event (_ensure_active_run: replay + workflow.run), that the run continues "
+      "from where it stopped (C11 / C13), and the whole DBOS stack. The store query and the clock are modelled as "
+      "read once inside the section. This check must not be read as a proof of C36.",
+      category="other",
+      technique="contract-based: postconditions on a mechanically extracted section of the real method (pyvc + z3)")
+
+claim("C34",
+      "BOUNDED STAND-IN, nothing is proved: semver_to_pep440 / pep440_to_semver / detect_change_type are string "
+      "functions over regular expressions and packaging.version, outside the verifier's encoding (no string theory). "
+      "Their contracts (the two round trips give back the normalised original; the classification is 'none' exactly "
+      "when the new version is not greater and otherwise names the most significant release component that grew) are "
+      "checked at run time on the real functions over a complete enumeration of a small version domain (components "
+      "0..2, pre-releases a/b/rc 0..2; 0..3 and all pairs in the thorough tier).",
+      "Bound: no epochs, post/dev/local segments, multi-digit components or more than three release components; when "
+      "only the pre-release part grew the statement names no component and any of major/minor/patch is accepted.",
+      category="exploration",
+      technique="bounded stand-in for contract verification: run-time checked contracts on the real functions over an "
+                "exhaustively enumerated finite domain (stated bound); labelled bounded, not counted as proved")
